@@ -17,7 +17,7 @@ MANIFEST = dict(
               'helper-property/loop-shape/rebuild-order/physics-header tables regenerated from bsp.py, binformat.py and vmf.py by fail-closed '
               'ast translators + vm_compute correspondence (struct, RLE, row size, find_or_insert/extend with and without key, texture table, '
               'entity lump, PHYSCOLLIDE, DeferredWrites; byte-exact) + field-by-field save/re-read oracle',
-    text='Theorems in Props/C11.v (52): for every struct format of the modelled language and every fitting record unpack(pack v) = v; '
+    text='Theorems in Props/C11.v (55): for every struct format of the modelled language and every fitting record unpack(pack v) = v; '
          'pack succeeds only if every integer is inside its field (out-of-range raises); Ns fields pad and silently truncate, '
          'so a guarded site never truncates; run-length decoding inverts encoding for every byte list, alone and at its offset '
          'inside the lump; an integer expression that passes the decision procedure rowsize_ok equals ceil(n/8) for EVERY cluster count and '
@@ -32,7 +32,10 @@ MANIFEST = dict(
          'has two indexes, the listed roots keep their positions, every stored index resolves to the object referred to, the table holds '
          'exactly the objects reachable from the roots, and it ends after at most |reachable|+1 steps (a loop over a snapshot of the list '
          'is refuted: an index is handed out, the record is never written); every loop shape that passes wl_entry_ok has that closure '
-         'property; LUMP_REBUILD_ORDER runs every writer that appends to another view before the writer of that view; hi << k | lo is '
+         'property; LUMP_REBUILD_ORDER runs every writer that appends to another view before the writer of that view, and then the whole save() '
+         'pass - one work-list writer per lump over one table per lump - leaves every list entry of every lump with exactly one record at its '
+         'own index and every stored index resolving in the FINAL list of its target lump (save_cross_reference_closure; a reference to a '
+         'lump rebuilt earlier is refuted); hi << k | lo is '
          'inverted by shift and mask; a value split over several fields '
          'by helper properties is put together again when the parts tile the bits and the last is unmasked (a masked high part is refuted); '
          'a boolean stored as one of two codes comes back iff the reader compares with the true-code; the main overlay block (3 values, face '
@@ -50,7 +53,7 @@ MANIFEST = dict(
          'reader\'s size for every face count; each detail-prop class is written by its own branch; all 28 index tables of the writers have a '
          'key that determines the record; all 8 loops over local index tables reach every entry; the rebuild order is topological for the 28 '
          'append edges. The premises are kernel-checked for '
-         'today\'s source on every run (246 obligations). Models are compared byte-exactly with CPython struct, runlength_encode/decode, '
+         'today\'s source on every run (249 obligations). Models are compared byte-exactly with CPython struct, runlength_encode/decode, '
          'binformat.find_or_* (with key functions), binformat.DeferredWrites, _lmp_write/read_textures, write_ent_data/_lmp_read_ents, the '
          'PHYSCOLLIDE lump of _lmp_write/read_bmodels; generated lump contents (incl. '
          'near-duplicate objects, and objects reachable ONLY through references of other objects - grafted sub-trees of nodes, leafs, faces, '
